@@ -10,7 +10,7 @@ From Coq Require Import List NArith Arith Bool.
 From RT Require Import Model.StackTrace Model.StackProto Proofs.StackInvProofs Proofs.SnapshotProofs.
 Import ListNotations.
 
-Theorem C10_snapshot : forall size_oracle attempts tabs scripts sched,
+Theorem C10_snapshot : forall size_oracle attempts tabs (scripts : list (bool * list apiop)) sched,
   init_ok tabs ->
   c10_ok (trace_of size_oracle attempts tabs scripts sched) = true.
 Proof. exact c10_all_traces. Qed.
